@@ -258,6 +258,17 @@ class Evaluator:
         """Evaluate fn `path` on argument terms; returns list of World."""
         return self.run(lambda st: st.call_path(path, list(args), None), assumptions)
 
+    def run_node(self, fn_path, node, env, assumptions=None):
+        """evaluate one HIR node of fn_path in a prepared environment (local id -> term)"""
+        def thunk(st):
+            from copy import copy
+            st.frames.append(Frame(fn_path, env))
+            e2 = dict(env)
+            if node.get('k') == 'Block' and 'stmts' in node:
+                return st.block(node, e2)
+            return st.expr(node, e2)
+        return self.run(thunk, assumptions)
+
     def run(self, thunk, assumptions=None):
         worlds = []
         stack = [list(assumptions or [])]
@@ -554,6 +565,8 @@ class State:
             if recv[0] == 'seq':
                 return ('call', p, (recv,))
             return ('call', p, (recv,))
+        if last in ('iter', 'iter_mut', 'into_iter', 'drain') and p.startswith('std::') and len(a) == 1:
+            return a[0]
         if p.startswith('std::iter::Iterator::') or p.startswith('std::iter::DoubleEndedIterator::'):
             return self.iter_builtin(last, p, a, node)
         if p in ('std::f32::<impl f32>::from_bits', 'std::f64::<impl f64>::from_bits'):
@@ -1206,11 +1219,80 @@ class State:
         return UNIT
 
     def e_Loop(self, e, env):
-        # concrete execution while conditions stay literal; bounded
+        # concrete execution while conditions stay literal (bounded); a `while` whose condition is
+        # opaque is summarised by ONE generic iteration of its body under a loop marker
         loop_id = e.get('id')
-        for _ in range(200):
+        body = e['body']
+        ifn = body.get('expr') if not body['stmts'] else None
+        is_while = e.get('src') == 'While' and ifn is not None and ifn['k'] == 'If'
+        for _ in range(70):
+            if is_while:
+                c = ifn['c']
+                sym_iter = None
+                if c['k'] == 'LetExpr':
+                    v = self.refine(self.expr(c['init'], env))
+                    if v[0] not in ('ctor', 'lit', 'tup', 'list'):
+                        head = self.adt_of_ty(c['init'].get('ty'))
+                        payload = some(('ok', v)) if head in (OPTION, 'core::option::Option') else None
+                        if payload is None:
+                            raise EvalError('while-let over opaque non-Option at line %s' % e.get('l'))
+                        sym_iter = (v, lambda env2: self.match(c['pat'], payload, env2, irrefutable=True))
+                    else:
+                        env2 = {}
+                        if not self.match(c['pat'], v, env2):
+                            return UNIT
+                        env.update(env2)
+                        try:
+                            self.expr(ifn['t'], env)
+                        except ContinueEx:
+                            continue
+                        except BreakEx as b:
+                            if b.target in (loop_id, None):
+                                return b.v if b.v is not None else UNIT
+                            raise
+                        continue
+                else:
+                    try:
+                        cv = self.refine(self.expr(c, env))
+                    except NeedSplit as ns:
+                        cv = ('unknown', 'cond')
+                    if cv[0] == 'lit' and isinstance(cv[1], bool):
+                        if not cv[1]:
+                            return UNIT
+                        try:
+                            self.expr(ifn['t'], env)
+                        except ContinueEx:
+                            continue
+                        except BreakEx as b:
+                            if b.target in (loop_id, None):
+                                return b.v if b.v is not None else UNIT
+                            raise
+                        continue
+                    sym_iter = (cv, lambda env2: True)
+                # one generic iteration
+                src, binder = sym_iter
+                marker = ('call', 'while', (src,))
+                self.loops.append(marker)
+                self.effect('loop_begin', 'while', (src,), e)
+                snapshot = dict(env)
+                try:
+                    binder(env)
+                    try:
+                        self.expr(ifn['t'], env)
+                    except ContinueEx:
+                        pass
+                    except BreakEx as b:
+                        if b.target not in (loop_id, None):
+                            raise
+                finally:
+                    self.loops.pop()
+                    self.effect('loop_end', 'while', (src,), e)
+                for kk, vv in list(env.items()):
+                    if kk in snapshot and snapshot[kk] != vv:
+                        env[kk] = ('call', 'loop_carried', (marker, vv))
+                return UNIT
             try:
-                self.block(e['body'], env)
+                self.block(body, env)
             except ContinueEx:
                 continue
             except BreakEx as b:
